@@ -218,6 +218,11 @@ func (e *Env) lenTerm(x ssa.Value) lin.Term {
 	}
 	switch y := x.(type) {
 	case *ssa.Call:
+		if c, _ := ssax.AsCall(y); c.FullName() == "builtin.append" && len(y.Call.Args) == 2 {
+			// append(a, b...) (go/ssa passes the variadic elements as one slice)
+			e.p.Cfg.use("len(append(a, b...)) = len(a) + len(b)")
+			return e.lenTerm(y.Call.Args[0]).Add(e.lenTerm(y.Call.Args[1]))
+		}
 		if t, ok := e.inlineLen(y, 0); ok {
 			return t
 		}
@@ -1165,9 +1170,13 @@ func (e *Env) calleeView(x *ssa.Call) (ce *Env, ret *ssa.Return, sub map[string]
 	if res.Len() == 0 {
 		return
 	}
-	errLast := false
+	// the last result may report success: an error (nil) or, with other results, an ok flag (true)
+	errLast, okLast := false, false
 	if n, isN := res.At(res.Len() - 1).Type().(*types.Named); isN && n.Obj().Pkg() == nil && n.Obj().Name() == "error" {
 		errLast = true
+	}
+	if b, isB := res.At(res.Len() - 1).Type().Underlying().(*types.Basic); isB && b.Kind() == types.Bool && res.Len() > 1 {
+		okLast = true
 	}
 	n := 0
 	ssax.Instrs(g, func(in ssa.Instruction) {
@@ -1181,6 +1190,12 @@ func (e *Env) calleeView(x *ssa.Call) (ce *Env, ret *ssa.Return, sub map[string]
 				return
 			}
 		}
+		if okLast {
+			c, isC := r.Results[len(r.Results)-1].(*ssa.Const)
+			if !isC || c.Value == nil || !constant.BoolVal(c.Value) {
+				return
+			}
+		}
 		ret = r
 		n++
 	})
@@ -1191,6 +1206,9 @@ func (e *Env) calleeView(x *ssa.Call) (ce *Env, ret *ssa.Return, sub map[string]
 		if res.Len() == 1 || !e.knownNilError(x, res.Len()-1) {
 			return
 		}
+	}
+	if okLast && !e.knownTrue(x, res.Len()-1) {
+		return
 	}
 	if e.p.inlining == nil {
 		e.p.inlining = map[*ssa.Function]bool{}
@@ -1386,6 +1404,34 @@ func (e *Env) importFacts(ce *Env, sub map[string]lin.Term, rename func(string) 
 		e.vars[k] = true
 		e.Facts = append(e.Facts, lin.Ineq{T: t, Why: f.Why + " (in " + ce.fn.Name() + ")"})
 	}
+}
+
+// knownTrue: the point of e is dominated by the edge on which result #idx (an
+// ok flag) of call x was found to be true.
+func (e *Env) knownTrue(x *ssa.Call, idx int) bool {
+	if e.at == nil || x.Referrers() == nil {
+		return false
+	}
+	for _, u := range *x.Referrers() {
+		ex, isEx := u.(*ssa.Extract)
+		if !isEx || ex.Index != idx {
+			continue
+		}
+		for _, ef := range dominatingEdges(e.at.Block()) {
+			c, taken := ef.cond, ef.taken
+			for {
+				n, isN := c.(*ssa.UnOp)
+				if !isN || n.Op != token.NOT {
+					break
+				}
+				c, taken = n.X, !taken
+			}
+			if c == ssa.Value(ex) && taken {
+				return true
+			}
+		}
+	}
+	return false
 }
 
 // knownNilError: the point of e is dominated by the edge on which result #idx
